@@ -396,6 +396,11 @@ where
             let edge: &mut Edge<_, _>;
 
             if self.free_edge != EdgeIndex::end() {
+                // Check the endpoints before taking the vacant edge off the
+                // free list, so that a failure leaves the graph untouched.
+                if let Some(i) = self.missing_endpoint(a, b) {
+                    return Err(GraphError::NodeMissed(i));
+                }
                 edge_idx = self.free_edge;
                 edge = &mut self.g.edges[edge_idx.index()];
                 let _old = replace(&mut edge.weight, Some(weight));
@@ -450,6 +455,20 @@ where
             self.g.edges.push(edge);
         }
         Ok(edge_idx)
+    }
+
+    /// Return the index that `try_add_edge` reports as missing for the
+    /// endpoints `a`, `b`, if any.
+    fn missing_endpoint(&self, a: NodeIndex<Ix>, b: NodeIndex<Ix>) -> Option<usize> {
+        if cmp::max(a.index(), b.index()) >= self.g.nodes.len() {
+            Some(cmp::max(a.index(), b.index()))
+        } else if self.g.nodes[a.index()].weight.is_none() {
+            Some(a.index())
+        } else if self.g.nodes[b.index()].weight.is_none() {
+            Some(b.index())
+        } else {
+            None
+        }
     }
 
     /// free_edge: Which free list to update for the vacancy
